@@ -159,6 +159,7 @@ DEFAULT_PROFILE = {
     "fault_kinds": ["crash", "crash", "extstop"],
     "p_latency": 0.6,
     "p_shuffle_keys": 0.3,
+    "p_repeat_level": 0.0,
     "p_io_latency": 0.5,
     "p_async_stop": 0.15,
     "p_nodelay_false": 0.12,
@@ -490,6 +491,8 @@ def gen_scenario(root, profile=None):
     r2 = HRng(root, "scenario-ext1")
     if r2.chance(p["p_shuffle_keys"]) and p["world"] != "sim":
         script["shuffle_keys"] = True  # the script lists the entries of a report in varying order
+    if r2.chance(p["p_repeat_level"]) and kind in ("hb_stopping", "hb_rush_stopping"):
+        script["repeat_level"] = r2.choice([0.1, 0.3])  # some resource values are reported twice (legal for stopping-type schedulers)
     if scen.get("latency") and p["world"] == "local" and r2.chance(p["p_io_latency"]):
         # F12 slow reads: time passes between the back-end's read of the process status and of the output stream
         scen["latency"]["p_io"] = r2.choice([0.05, 0.2, 0.5])
